@@ -44,6 +44,7 @@ class Inst:
     grids: dict  # "A","B","C" -> ndarray
     sched_S: np.ndarray | None
     table: str = "pvt_gas"
+    pf_box: str = "float"   # how the caller holds the frac-face pressure: Python float, numpy scalar, 0-d array (what interp1d returns), 1-element array
     _fluid: object = field(default=None, repr=False)
 
     def fluid(self):
@@ -63,16 +64,18 @@ class Inst:
         if pf is not None:
             cls = IdealReservoir if self.kind == "ideal" else SinglePhaseReservoir
             return cls(self.nx, pf, self.pi, fluid)
+        pf_arg = {"float": float(self.pf), "np": np.float64(self.pf), "0d": np.array(float(self.pf)),
+                  "1d": np.array([float(self.pf)])}[self.pf_box]
         if self.kind == "twophase":
             from bluebonnet.flow import TwoPhaseReservoir  # noqa: PLC0415
 
-            return TwoPhaseReservoir(self.nx, self.pf, self.pi, fluid, 0.1)
+            return TwoPhaseReservoir(self.nx, pf_arg, self.pi, fluid, 0.1)
         if self.kind == "multiphase":
             from bluebonnet.flow import MultiPhaseReservoir  # noqa: PLC0415
 
-            return MultiPhaseReservoir(self.nx, self.pf, self.pi, fluid)
+            return MultiPhaseReservoir(self.nx, pf_arg, self.pi, fluid)
         cls = IdealReservoir if self.kind == "ideal" else SinglePhaseReservoir
-        return cls(self.nx, self.pf, self.pi, fluid)
+        return cls(self.nx, pf_arg, self.pi, fluid)
 
     def sched(self, s: str, g: str):
         if s == "none":
@@ -88,11 +91,22 @@ class Inst:
         raise KeyError(s)
 
     def describe(self) -> dict:
-        return {"kind": self.kind, "nx": self.nx, "pf": self.pf, "pi": self.pi, "table": self.table,
+        return {"kind": self.kind, "nx": self.nx, "pf": self.pf, "pf_held_as": self.pf_box, "pi": self.pi, "table": self.table,
                 "len": {g: len(t) for g, t in self.grids.items()}}
 
 
+PF_BOX = {1: "np", 2: "0d", 4: "1d", 6: "np", 7: "0d", 8: "1d"}
+
+
 def default_inst(kind: str, variant: int = 0, rng: np.random.Generator | None = None) -> Inst:
+    inst = _default_inst(kind, variant, rng)
+    inst.pf_box = PF_BOX.get(variant, "float")
+    if inst.pf_box == "1d" and kind != "ideal":
+        inst.pf_box = "0d"   # a 1-element array is not a scalar setting for the schedule of the single-phase class
+    return inst
+
+
+def _default_inst(kind: str, variant: int = 0, rng: np.random.Generator | None = None) -> Inst:
     if variant == 0:
         a = np.linspace(0, 1.0, 6) ** 2
         b = np.linspace(0, 1.0, 6)   # same length, same first and last time as A, different interior
